@@ -80,6 +80,12 @@ def r1(ctx):
         ctx.require(len(loops) == 1, "%s has no single record loop" % itname)
         probs = util.check_loop_conservation(c2, loops[0], lambda n: c2.kind(n) == "stmt" and any(isinstance(x, ast.Yield) for x in ast.walk(c2.ast(n))))
         ctx.ob(fi.qual, "yields-every-record", not probs, fi.loc(loops[0]), "every record of the file is yielded" if not probs else "a record can be dropped by the iterator", c2.describe_path(probs[0][1]) if probs else None)
+        recv = u(loops[0].target)
+        ys = [n for n in walk_function(fi.node) if isinstance(n, ast.Expr) and isinstance(n.value, ast.Yield) and isinstance(n.value.value, ast.Tuple) and len(n.value.value.elts) == 3]
+        good = (recv, "str(%s) + '\\n'" % recv)
+        okr = bool(ys) and all(u(y.value.value.elts[2]) in good for y in ys)
+        okn = bool(ys) and all(u(y.value.value.elts[0]) in ("%s.query_name" % recv, "%s.name" % recv) for y in ys)
+        ctx.ob(fi.qual, "record-handed-on-as-read", okr and okn, fi.loc(ys[0]) if ys else fi.loc(), "the iterator yields (the record's own name, length, the record itself / its complete text)" if okr and okn else "the iterator re-builds the record (%s) instead of handing on what was read: parts of the input (e.g. FASTQ header comments) are lost" % ([u(y.value.value.elts[2]) for y in ys]))
 
 
 def _inside(node, anc):
@@ -261,4 +267,4 @@ RULES = [
     ("C14.R3", "every write is paired with the histogram of its output", r3),
     ("C14.R4", "histogram rows: distinct sorted lengths, one count per output", r4),
 ]
-FLOORS = {"C14.R1": 7, "C14.R2": 14, "C14.R3": 3, "C14.R4": 3}
+FLOORS = {"C14.R1": 9, "C14.R2": 14, "C14.R3": 3, "C14.R4": 3}
